@@ -335,15 +335,6 @@ theorem chunked_roundtrip (cfg : Cfg) (head m t v tev host : Str) (h : Hdrs) (ka
   rw [run_chunked_request cfg head m t v h ka host cs hend hfit hparse hka hhost hbk hne hlim]
   exact events_bodyDone_afterHead cfg m t v h ka _ _ _
 
-/-- the head `POST / HTTP/1.1␍␊Host:x␍␊Transfer-Encoding:chunked␍␊␍␊` -/
-def postChunkedHead : Str :=
-  [80, 79, 83, 84, 32, 47, 32, 72, 84, 84, 80, 47, 49, 46, 49, 13, 10, 72, 111, 115, 116, 58, 120, 13, 10,
-   84, 114, 97, 110, 115, 102, 101, 114, 45, 69, 110, 99, 111, 100, 105, 110, 103, 58, 99, 104, 117, 110, 107, 101, 100,
-   13, 10, 13, 10]
-
-def postChunkedHdrs : Hdrs :=
-  { m := [(kHost, [[120]]), (kTransferEncoding, [kChunked])], last := some kTransferEncoding }
-
 /-- the instance for a concrete head, with the default configuration: *every* chunk list round-trips -/
 theorem chunked_roundtrip_post (cs : List Str)
     (hne : ∀ c ∈ cs, c ≠ [] ∧ c.length < 16 ^ 62) (hlim : cs.flatten.length ≤ 104857600) :
@@ -391,7 +382,6 @@ theorem model_eq_spec :
   exact h.symm
 
 -- non-vacuity: two pipelined requests `GET / HTTP/1.1␍␊Host:x␍␊␍␊`, both extracted by the batch reader
-def getHead : Str := [71, 69, 84, 32, 47, 32, 72, 84, 84, 80, 47, 49, 46, 49, 13, 10, 72, 111, 115, 116, 58, 120, 13, 10, 13, 10]
 example : (Spec.readAll {} (getHead ++ getHead)).1.length = 2 := by decide
 
 end TornadoModel.C01
